@@ -19,10 +19,13 @@ from dataclasses import dataclass, field
 from pathlib import Path
 
 VERIF = Path(__file__).resolve().parent.parent
-LEAN = VERIF / "lean"
+# VERIF_LEAN_DIR / VERIF_EVIDENCE_DIR: a private copy of the Lean project / a private evidence directory, used only
+# by the evaluation tools (seeded_eval.py, benign_eval.py) so that several mutated copies can be checked at once
+# without sharing Gen/*.lean; the registered commands never set them
+LEAN = Path(os.environ.get("VERIF_LEAN_DIR", VERIF / "lean"))
 REPO = Path(os.environ.get("TOPSEARCH_REPO", "/repo"))
 SRC = REPO / "src" / "topsearch"
-EVIDENCE = VERIF / "evidence"
+EVIDENCE = Path(os.environ.get("VERIF_EVIDENCE_DIR", VERIF / "evidence"))
 REPLAY = EVIDENCE / "replay"
 KNOWN = VERIF / "known_findings.json"
 ALLOWED_AXIOMS = {"propext", "Classical.choice", "Quot.sound"}
